@@ -44,7 +44,7 @@
 (*                     project_tangential_normal, and num = 2 repeats the  *)
 (*                     block of the first normal                           *)
 (* Kinds tilt_*: the same calls for nearly axis-aligned directions such as *)
-(* (1, 0, 10^7), handed over as big vectors nb / dv = [s, c, ax, facs]     *)
+(* (1, 0, 10^7), handed over as big vectors nb / dv = [s, cv, facs]        *)
 (* (OrthoMaps.FxBigDotRel); their MapsToAxis / NormalOrthogonal verdicts   *)
 (* are relative to the big component and always taken on the limbs.        *)
 (* All clauses are evaluated by the single invariant Judgement (the        *)
